@@ -222,7 +222,12 @@ class tensorflow_backend:
             # Use a tensor attribute that isn't meaningless when eager execution is enabled
             tensor.device
         except AttributeError:
-            tensor = tf.convert_to_tensor(tensor_in)
+            try:
+                # convert directly to the requested dtype, as Python floats
+                # would otherwise be truncated to float32 before being cast
+                tensor = tf.convert_to_tensor(tensor_in, dtype=dtype)
+            except (TypeError, ValueError):
+                tensor = tf.convert_to_tensor(tensor_in)
         if tensor.dtype is not dtype:
             tensor = tf.cast(tensor, dtype)
         return tensor
